@@ -235,7 +235,7 @@ class Builder:
 
     VALUE_STRIDE = 1 << 16
 
-    def symtokens(self, name, maxlen=None):
+    def symtokens(self, name, maxlen=None, file=None):
         """A token list of ARBITRARY length: token i has an arbitrary TokenType and an arbitrary text (a string of arbitrary
         length below VALUE_STRIDE).  Reading the same index twice yields tokens with the same type and text."""
         members = self.engine.lifter.enum_members("a816.parse.tokens.TokenType")
@@ -247,12 +247,22 @@ class Builder:
             self.symbols[name + a] = arr
         K = self.VALUE_STRIDE
 
+        lines = z3.Array(name + "_line", z3.IntSort(), z3.IntSort())
+        cols = z3.Array(name + "_column", z3.IntSort(), z3.IntSort())
+        if file is not None:
+            self.symbols[name + "_line"] = lines
+            self.symbols[name + "_column"] = cols
+
         def mk(I, st, idx):
             t = z3.Select(types, idx)
             ln = z3.Select(lens, idx)
             st.pc.append(z3.And(t >= 0, t < len(members), ln >= 0, ln < K))  # type invariant of the input
+            pos = None
+            if file is not None:
+                # each token carries the position the scanner gave it: an arbitrary line / column of `file`
+                pos = I.alloc(st, HInst("a816.parse.tokens.Position", {"line": z3.Select(lines, idx), "column": z3.Select(cols, idx), "file": file}))
             return I.alloc(st, HInst("a816.parse.tokens.Token", {"type": SymEnum("a816.parse.tokens.TokenType", t, members),
-                                                                 "value": SymSeq(vals, z3.simplify(to_z3int(idx) * K), ln, "str"), "position": None}))
+                                                                 "value": SymSeq(vals, z3.simplify(to_z3int(idx) * K), ln, "str"), "position": pos}))
         return self.I.alloc(self.st, HSymList(n, mk, what="tokens"))
 
     def cls(self, qualname):
